@@ -9,7 +9,7 @@ from props import fam_sym
 
 MANIFEST = dict(
     technique='Coq proof (PIR/FASTA reader total and in bounds, triplet parser terminates, Hall-symbol interpreter in bounds, for every byte string) + exact differential check of the modelled parsers on arbitrary bytes + sanitizer-instrumented runs of every reader entry point',
-    text='Theorems for ALL byte strings: read_pir_or_fasta never indexes outside its string or an empty vector and always returns or throws; parse_triplet and parse_triplet_part terminate (the loop consumes at least one byte per iteration); the Hall-symbol interpreter (symops_from_hall incl. change of basis and Dimino closure) never indexes Op::tran outside {0,1,2} (the model makes the index explicit; the snapshot wrote tran[-120]). The models of the triplet parser, Hall-symbol interpreter (incl. Dimino closure) and space-group name lookup are compared exactly (value or exception) with gemmi on arbitrary, grammar-derived and mutated byte strings; the Hall model predicted an out-of-bounds write that was confirmed under UBSan and repaired. Memory safety, termination and resource limits of the remaining C++ readers are NOT theorems: every entry point named by the property (CIF at 3 check levels, mmJSON, PDB with options, XDS_ASCII, PIR/FASTA, triplets, Hall symbols, names, selections, and the block->structure / small structure / chemical component / reflection-table conversions) is run under ASan+UBSan with a 10 s alarm on random bytes, grammar-derived texts, seeded byte/line mutations and truncation points of every sample file under /repo/tests; outcome classes OK/EXC are accepted, CRASH/TIMEOUT are violations with the input as replay.',
+    text='Besides ASan+UBSan, every whole sample file goes through every reader under valgrind/memcheck in a build without sanitizers (accesses inside libstdc++ and uses of uninitialised values are visible only there). Theorems for ALL byte strings: read_pir_or_fasta never indexes outside its string or an empty vector and always returns or throws; parse_triplet and parse_triplet_part terminate (the loop consumes at least one byte per iteration); the Hall-symbol interpreter (symops_from_hall incl. change of basis and Dimino closure) never indexes Op::tran outside {0,1,2} (the model makes the index explicit; the snapshot wrote tran[-120]). The models of the triplet parser, Hall-symbol interpreter (incl. Dimino closure) and space-group name lookup are compared exactly (value or exception) with gemmi on arbitrary, grammar-derived and mutated byte strings; the Hall model predicted an out-of-bounds write that was confirmed under UBSan and repaired. Memory safety, termination and resource limits of the remaining C++ readers are NOT theorems: every entry point named by the property (CIF at 3 check levels, mmJSON, PDB with options, XDS_ASCII, PIR/FASTA, triplets, Hall symbols, names, selections, and the block->structure / small structure / chemical component / reflection-table conversions) is run under ASan+UBSan with a 10 s alarm on random bytes, grammar-derived texts, seeded byte/line mutations and truncation points of every sample file under /repo/tests; outcome classes OK/EXC are accepted, CRASH/TIMEOUT are violations with the input as replay.',
     note='Trusted: Coq kernel; extraction; harness; ASan/UBSan. No axioms. PARTIAL by nature: safety of PEGTL, sajson and the conversion code is observed by the sanitizer run (testing), not proved. Signed-integer-overflow reports in number parsing of absurdly long digit strings are treated as crashes too.')
 
 KINDS_FOR_EXT = {
@@ -178,6 +178,10 @@ def run(chk):
         for (c, v) in todo:
             kind = 'refln' if is_sf and rng.random() < 0.7 else ('st_cif' if rng.random() < 0.7 else rng.choice(kinds))
             lines.append('cifval\t%s %s %d %d %d' % (kind, p_, c, rng.randint(0, 10 ** 6), v))
+        # every column (or pair) removed in turn: the "optional tag absent" paths of the conversions
+        for c in range(ncol):
+            for kind in (['refln'] if is_sf else ['st_cif']) + ([rng.choice(kinds)] if not quick or rng.random() < 0.2 else []):
+                lines.append('cifdrop\t%s %s %d' % (kind, p_, c))
     rng.shuffle(lines)
     res = vlib.correspond(chk, h, None, lines, timeout=3000,
                           env={'ASAN_OPTIONS': 'detect_leaks=0:abort_on_error=0:allocator_may_return_null=1:max_allocation_size_mb=2048'})
@@ -203,10 +207,38 @@ def run(chk):
         seen[key] = 1
         chk.violate('crash', key, 'input line: %s\n%s' % (line[:400], err[-1500:]),
                     replay={'harness': 'h_readers', 'line': line})
+    # (3) memcheck: the whole sample files through every reader in a build without sanitizers. ASan cannot see an
+    # access made inside libstdc++ (e.g. std::string::append through a dangling pointer); valgrind can, and it
+    # reports uses of uninitialised values as well.
+    vg_lines = ['linecut\tpdb 0 %s 0 80 0' % (vlib.ROOT + '/data/all_records.pdb'),
+                'linecut\tpdb 3 %s 0 80 0' % (vlib.ROOT + '/data/all_records.pdb')]
+    for (path, ext) in files:
+        for kind in KINDS_FOR_EXT[ext]:
+            vg_lines.append('file\t%s %d %s -1 0 1' % (kind, rng.randint(0, 3), path))
+    hv_ = F.harness_vg()
+    import subprocess, time as _t
+    t0 = _t.time()
+    pr = subprocess.run(['valgrind', '--quiet', '--error-exitcode=99', '--leak-check=no', hv_],
+                        input=('\n'.join(vg_lines) + '\n').encode(), stdout=subprocess.PIPE, stderr=subprocess.PIPE, timeout=3000)
+    vg_out = pr.stdout.decode(errors='replace').splitlines()
+    vg_err = pr.stderr.decode(errors='replace')
+    for l in vg_out:
+        p = l.split('\t')
+        if len(p) == 3:
+            chk.case('vg ' + p[1], p[2] == 'OK', bucket='memcheck:' + p[1].split()[0] + ':' + p[2])
+    vlib.log('memcheck: %d whole-file cases, rc=%d, %.0fs' % (len(vg_out), pr.returncode, _t.time() - t0))
+    if pr.returncode != 0 or len(vg_out) != len(vg_lines) or 'Invalid ' in vg_err or 'uninitialised' in vg_err:
+        import re
+        m = re.search(r'==\d+== (Invalid [^\n]*|Conditional jump[^\n]*|Use of uninitialised[^\n]*|Syscall param[^\n]*)(\n==\d+==    [^\n]*){0,6}', vg_err)
+        first = re.sub(r'==\d+== ', '', m.group(0)) if m else vg_err[-600:]
+        last_ok = vg_out[-1].split('\t')[1] if vg_out else ''
+        chk.violate('crash', 'C02 memcheck (valgrind) reports an error in a reader: ' + re.sub(r'0x[0-9A-Fa-f]+', 'ADDR', first.split('\n')[0])[:160],
+                    first[:1500] + '\n(last completed case: %s)' % last_ok,
+                    replay={'harness': 'h_readers_vg', 'line': vg_lines[min(len(vg_out), len(vg_lines) - 1)]})
     chk.rule = ('(1) triplet / Hall / name / PIR parsers on arbitrary, grammar-derived and mutated bytes, exact comparison with the extracted models; '
                 '(2) every reader entry point and conversion under ASan+UBSan+alarm on the same small inputs and on every sample file of /repo/tests: '
-                'whole, truncated (quick: ~150 offsets per file incl. line starts and in-line cuts; thorough: every offset), and with 1-30 seeded byte/line mutations; every PDB record type (sample files + data/all_records.pdb) with one line cut short at every column; one value of each parsed sample CIF replaced by 43 special values before the block conversions. '
-                'non-trivial = the reader accepted the input (OK)')
+                'whole, truncated (quick: ~150 offsets per file incl. line starts and in-line cuts; thorough: every offset), and with 1-30 seeded byte/line mutations; every PDB record type (sample files + data/all_records.pdb) with one line cut short at every column; one value of each parsed sample CIF replaced by 43 special values, and each column or pair removed in turn, before the block conversions. '
+                '(3) valgrind/memcheck on every whole sample file through every reader in a build without sanitizers. non-trivial = the reader accepted the input (OK)')
     if not proved:
         chk.violate('proof', 'Properties_C02 ' + ','.join(getattr(chk, 'failed_theorems', [])),
                     getattr(chk, 'coq_log_tail', ''), found_input=False)
@@ -215,6 +247,13 @@ def run(chk):
 def replay(chk, path):
     import json
     r = json.load(open(path))['replay']
+    if r['harness'] == 'h_readers_vg':
+        import subprocess
+        pr = subprocess.run(['valgrind', '--error-exitcode=99', '--leak-check=no', F.harness_vg()], input=(r['line'] + '\n').encode(), stdout=subprocess.PIPE, stderr=subprocess.PIPE)
+        print(pr.stdout.decode(), pr.stderr.decode()[-3000:])
+        if pr.returncode != 0:
+            chk.violate('crash', 'replayed input fails under valgrind', pr.stderr.decode()[-2000:])
+        return
     exe = F.harness() if r['harness'] == 'h_readers' else fam_sym.harness()
     rc, out, err = vlib.run_lines(exe, [], inp=(r['line'] + '\n').encode())
     print('\n'.join(out), err[-3000:])
